@@ -23,11 +23,12 @@ GOENV = dict(os.environ, GOFLAGS="-mod=mod", GOPROXY="off", GOSUMDB="off", GOTOO
 TRUSTED_BASE = [
     "Coq 8.16.1 kernel (coqc, full .vo build; vm_compute used for finite sweeps and witnesses; no native_compute)",
     "no axioms: every property theorem is 'Closed under the global context' (checked from Print Assumptions output on each run)",
-    "hand-written Gallina model of go/mcap and go/ros (coq/theories/*.v), tied to /repo by differential execution on each run",
+    "hand-written Gallina model of go/mcap, go/ros and python/mcap (coq/theories/*.v), tied to /repo by differential execution on each run",
+    "translators: tools/gotrans (Go AST) + tools/gen_layout.py regenerate Layout_gen.v (record read/write layouts of parse.go and writer.go) and tools/common.py / tools/gen_c17.py regenerate Consts_gen.v / Vectors_gen.v on each run; LayoutTie.v, ConstsTie.v and properties/C17.v are re-proved against them",
     "extraction: ExtrOcamlBasic only (bool, option, unit, list, prod, sumbool, sumor; andb/orb inlined); N, Z, positive, nat, Byte.byte extracted as inductives",
     "hand-written OCaml driver (ocaml/*.ml, zarith for decimal I/O), OCaml 4.13.1",
-    "Go harness (harness/*.go, build tag verif) and Python generators/comparators/oracles (tools/*.py)",
-    "third-party codecs (klauspost zstd, pierrec lz4), SQLite and the Go runtime/stdlib are oracles or modelled, not verified",
+    "Go harness (harness/*.go, build tag verif; a -race build for C13), tools/py_harness.py driving python/mcap, and Python generators/comparators/oracles (tools/*.py)",
+    "third-party codecs (klauspost zstd, pierrec lz4), SQLite, the Go runtime/stdlib and the Python runtime (BytesIO, struct, zlib.crc32, heapq) are oracles or modelled, not verified",
 ]
 
 
